@@ -707,11 +707,15 @@ func (h *httpServerHandler) handleStreamResumption(ctx context.Context, conn *ge
 
 	// Implement resumption logic, re-sending messages based on lastEventID
 	// This needs to be handled according to the server's storage/cache mechanism
-	h.logger.Infof("Resuming session %s GET SSE stream, event ID: %s", sessionID, conn.lastEventID)
+	// (senders that already found this connection update lastEventID under writeLock)
+	conn.writeLock.Lock()
+	lastEventID := conn.lastEventID
+	conn.writeLock.Unlock()
+	h.logger.Infof("Resuming session %s GET SSE stream, event ID: %s", sessionID, lastEventID)
 
 	// Create params for the notification
 	params := map[string]interface{}{
-		"resumedFrom": conn.lastEventID,
+		"resumedFrom": lastEventID,
 	}
 
 	// Create NotificationParams struct
